@@ -146,6 +146,7 @@ pub fn dispatch(cx: &RunCtx) -> bool {
         "C14" => crate::mchecks::c14(cx),
         "C20" => crate::mchecks::c20(cx),
         "C15" => crate::xchecks::c15(cx),
+        "C16" => crate::pchecks::c16(cx),
         "C18" => crate::nchecks::c18(cx),
         "C19" => crate::nchecks::c19(cx),
         _ => return false,
